@@ -1,0 +1,59 @@
+//go:build verif
+
+package vaxis
+
+import (
+	"fmt"
+	"strings"
+)
+
+// Verification hooks. Compiled only with -tags verif.
+
+func verifCell(b *strings.Builder, c Cell) {
+	fmt.Fprintf(b, "%q/%d/%x/%x/%x/%d/%d/%q/%q/%v|", c.Grapheme, c.Width, uint32(c.Foreground),
+		uint32(c.Background), uint32(c.UnderlineColor), c.UnderlineStyle, c.Attribute,
+		c.Hyperlink, c.HyperlinkParams, c.sixel)
+}
+
+// VerifState is a canonical dump of the renderer state that decides what the
+// next Render writes: both screen buffers, cursor states, the refresh flag,
+// pending resize, capabilities, graphics placements and mouse shape.
+func (vx *Vaxis) VerifState() string {
+	b := &strings.Builder{}
+	for _, s := range []*screen{vx.screenLast, vx.screenNext} {
+		fmt.Fprintf(b, "S%dx%d:", s.cols, s.rows)
+		for _, row := range s.buf {
+			for _, c := range row {
+				verifCell(b, c)
+			}
+			b.WriteByte('\n')
+		}
+	}
+	fmt.Fprintf(b, "CL%+v CN%+v R%v RS%v caps%+v", vx.cursorLast, vx.cursorNext, vx.refresh,
+		atomicLoad(&vx.resize), vx.caps)
+	fmt.Fprintf(b, " ms%q/%q gp%d", vx.mouseShapeLast, vx.mouseShapeNext, vx.graphicsProtocol)
+	for _, l := range [][]*placement{vx.graphicsLast, vx.graphicsNext} {
+		b.WriteString(" G[")
+		for _, p := range l {
+			fmt.Fprintf(b, "%d@%d,%d %dx%d;", p.id, p.col, p.row, p.w, p.h)
+		}
+		b.WriteString("]")
+	}
+	return b.String()
+}
+
+// VerifCaps reports the capability set established by the start-up replies.
+func (vx *Vaxis) VerifCaps() map[string]bool {
+	c := vx.caps
+	return map[string]bool{
+		"synchronizedUpdate": c.synchronizedUpdate, "unicodeCore": c.unicodeCore, "noZWJ": c.noZWJ,
+		"rgb": c.rgb, "kittyGraphics": c.kittyGraphics, "kittyKeyboard": c.kittyKeyboard,
+		"styledUnderlines": c.styledUnderlines, "sixels": c.sixels, "colorThemeUpdates": c.colorThemeUpdates,
+		"reportSizeChars": c.reportSizeChars, "reportSizePixels": c.reportSizePixels,
+		"osc4": c.osc4, "osc10": c.osc10, "osc11": c.osc11, "osc176": c.osc176,
+		"inBandResize": c.inBandResize, "explicitWidth": c.explicitWidth,
+	}
+}
+
+// VerifGraphicsProtocol reports the selected graphics protocol.
+func (vx *Vaxis) VerifGraphicsProtocol() int { return vx.graphicsProtocol }
